@@ -56,6 +56,8 @@ def check_case(case):
   else:
     from vq import isolated, kfpred
     u = kfpred.unsafe_findings(case)
+    if kfpred.addsub_multiplier_overflow(model):
+      u = u + ['addsub-output-scale']
     if u and not kfpred.take_isolation_budget(u):
       labels += ['execution_excluded:' + x for x in u]
     elif u:
@@ -101,6 +103,14 @@ def kf_unsafe_runtime(case, violation):
   """process abort on a model matching one of the recorded runtime-UB findings."""
   from vq import kfpred
   return bool(kfpred.unsafe_findings(case))
+
+
+def kf_addsub_output_scale(case, violation):
+  """The returned model has a quantized ADD/SUB whose output scale is so small
+  relative to its input scales that LiteRT's Prepare hits a TFLITE_CHECK."""
+  from vq import kfpred
+  out = engine.run(case)
+  return out.ok and kfpred.addsub_multiplier_overflow(fb.parse(out.qbytes))
 
 
 def kf_bmm_const_lhs(case, violation):
